@@ -12,6 +12,10 @@ structure State where
   decls : List Decl
   tags : List (Str × Str × Str)      -- (product, tag, version): one chain file each
   dirs : List (Str × Str)            -- installation directory of (product, version) present
+  /-- products set up in the environment of the command (`SETUP_<NAME>`), from this stack: name, version -/
+  setup : List (Str × Str) := []
+  /-- `utils.isDbWritable(product.db)`: the `ups_db` of the stack can be updated by the user of the command -/
+  dbWritable : Bool := true
 deriving Repr, DecidableEq
 
 def currentTag : Str := Str.ofString "current"
@@ -27,6 +31,8 @@ inductive Err where
   | cycle          -- RuntimeError out of uses() (topologicalSort's second exit)
   | outOfFuel      -- RecursionError
   | tableError     -- TableFileNotFound from `product.getTable()` (declared table file missing on disk)
+  | isSetup        -- EupsException "Product ... is already setup; specify force to proceed"
+  | noPermission   -- EupsException "You do not have permission to undeclare products from ..."
 deriving Repr, DecidableEq
 
 inductive Outcome where
@@ -94,11 +100,26 @@ def uniqProds (l : List Prod) : List Prod := Topo.dedup l
 
 def removed (R : List Prod) (n v : Str) : Bool := R.any fun p => p.name == n && p.ver == some v
 
-/-- the destruction loop: `undeclare` + `rmtree(product.dir)` for every collected product -/
+/-- the effect of `undeclare` + `rmtree(product.dir)` for every product of `R` -/
 def destroy (s : State) (R : List Prod) : State :=
   { decls := s.decls.filter fun d => !removed R d.name d.ver
     tags := s.tags.filter fun t => !removed R t.1 t.2.2
-    dirs := s.dirs.filter fun d => !removed R d.1 d.2 }
+    dirs := s.dirs.filter fun d => !removed R d.1 d.2
+    setup := s.setup
+    dbWritable := s.dbWritable }
+
+/-- `Eups.isSetup(product)`: the environment says this version of the product is set up from this stack -/
+def State.isSetup (s : State) (p : Prod) : Bool := s.setup.any fun x => x.1 == p.name && some x.2 == p.ver
+
+/-- the destruction loop of `Eups.remove`, product by product and in this order: `self.undeclare(...)` — which
+refuses when the database is not writable and, unless forced, when the product is set up, leaving that product and
+the remaining ones alone but the earlier ones gone — and only then `shutil.rmtree(dir)` -/
+def destroyLoop (force : Bool) : State → List Prod → Outcome × State
+  | s, [] => (.ok, s)
+  | s, p :: ps =>
+    if !s.dbWritable then (.failed .noPermission, s)
+    else if s.isSetup p && !force then (.failed .isSetup, s)
+    else destroyLoop force (destroy s [p]) ps
 
 /-- fuel for `_remove`'s own recursion: every nested call with `recursive` set opens a product not opened
 before (at most one per declaration), the others end one level down -/
@@ -112,7 +133,11 @@ def removeWith (s : State) (uses : UsesOutcome) (name ver : Str) (recursive chec
   let go (sb : Option SetupBy) : Outcome × State × List Prod :=
     match collect s.db sb force defaultName (name, ver) s.removeFuel name (some ver) recursive [] with
     | .error e => (.failed e, s, [])
-    | .ok (l, _) => (.ok, destroy s (uniqProds l), uniqProds l)
+    | .ok (l, _) =>
+      -- repaired tree (D37): no product of the removal set may be set up (unless forced) — checked before anything
+      -- is destroyed; the refusal inside the loop can then no longer fire
+      if !force && (uniqProds l).any s.isSetup then (.failed .isSetup, s, [])
+      else ((destroyLoop force s (uniqProds l)).1, (destroyLoop force s (uniqProds l)).2, uniqProds l)
   if check then
     match uses with
     | .outOfFuel => (.failed .outOfFuel, s, [])
